@@ -4,6 +4,7 @@ CONSTANTS
   LinkStyle = "samepage"
   MaxTok = 3
   Part = "links"
+  ListStyle = "versioned"
   Chains = TRUE
 INVARIANT LinksRefineP
 CHECK_DEADLOCK FALSE
